@@ -67,13 +67,24 @@ def extract():
     wrapper = next((n for n in ast.walk(hashable) if isinstance(n, ast.FunctionDef) and n.name == "wrapper"), None) if hashable else None
     rot_copy = wrapper is not None and _returns_copy(wrapper)
 
+    # the ellipsoid is part of the key through the dataclass-generated __eq__/__hash__: they must look at every field
+    ellt = _parse("midgard/math/ellipsoid.py")
+    ecls = next((n for n in ellt.body if isinstance(n, ast.ClassDef) and n.name == "Ellipsoid"), None)
+    ell_key_complete = False
+    if ecls is not None:
+        deco = " ".join(ast.unparse(d) for d in ecls.decorator_list)
+        fields = [n for n in ecls.body if isinstance(n, ast.AnnAssign)]
+        partial = any(n.value is not None and ("compare=False" in ast.unparse(n.value) or "hash=False" in ast.unparse(n.value)) for n in fields)
+        custom = any(isinstance(n, ast.FunctionDef) and n.name in ("__eq__", "__hash__") for n in ecls.body)
+        ell_key_complete = ("dataclass" in deco and "eq=False" not in deco and "frozen=True" in deco and not partial and not custom
+                            and {"a", "f_inv"} <= {n.target.id for n in fields if isinstance(n.target, ast.Name)})
     raw = {}
     for pub, priv in (("trs2llh", "_trs2llh"), ("llh2trs", "_llh2trs")):
         fpub, fpriv = _func(tra, pub), _func(tra, priv)
         raw[pub] = dict(
             keyShape=key_shape_hash,
             keyTag=fpriv is not None and [a.arg for a in fpriv.args.args] == [a for a in [fpriv.args.args[0].arg, "ellipsoid"]]
-            and f"{priv}(" in ast.unparse(fpub) and "ellipsoid)" in ast.unparse(fpub),
+            and f"{priv}(" in ast.unparse(fpub) and "ellipsoid)" in ast.unparse(fpub) and ell_key_complete,
             copyOut=fpub is not None and _returns_copy(fpub),
             frozenOut=False,
             freezeArg=freeze_arg,
